@@ -322,6 +322,15 @@ func HandleSetFileInfo(cc *hotline.ClientConn, t *hotline.Transaction) (res []ho
 				return cc.NewErrReply(t, "Cannot rename folder "+string(fileName)+" because it does not exist or cannot be found.")
 
 			}
+			if err == nil {
+				// A folder's comment lives in its information fork side file; it travels with the folder.  Left
+				// behind, it would attach to whatever entry is given the old name next.
+				oldInfo := filepath.Join(filepath.Dir(fullFilePath), fmt.Sprintf(hotline.InfoForkNameTemplate, filepath.Base(fullFilePath)))
+				newInfo := filepath.Join(filepath.Dir(fullNewFilePath), fmt.Sprintf(hotline.InfoForkNameTemplate, filepath.Base(fullNewFilePath)))
+				if err := os.Rename(oldInfo, newInfo); err != nil && !os.IsNotExist(err) {
+					return res
+				}
+			}
 		case mode.IsRegular():
 			if !cc.Authorize(hotline.AccessRenameFile) {
 				return cc.NewErrReply(t, "You are not allowed to rename files.")
